@@ -11,12 +11,14 @@ package l4http
 //     generator's abstract request (host / method / path filters).
 
 import (
+	"bufio"
 	"bytes"
 	"context"
 	"encoding/json"
 	"errors"
 	"fmt"
 	"net"
+	"net/http"
 	"os"
 	"runtime"
 	"strings"
@@ -354,6 +356,52 @@ func TestVerifHTTP(t *testing.T) {
 		evals++
 		if v == vhPanic {
 			out.Fail("C04:http:panic", "http matcher panicked on malformed input: "+emsg, map[string]any{"hex": fmt.Sprintf("%x", g)})
+		}
+	}
+	// first lines of every small length: the request-line test indexes backwards from the first
+	// line feed (i-9, i-3, i-1), so every position of the first LF from 0 to 40 is tried, with and
+	// without a CR in front, with letters / spaces / an " HTTP/1.1" tail, alone and followed by more
+	// lines. Never a panic; Yes only if the reference parser accepts the request.
+	{
+		m := mk(vhFilter{})
+		for i := 0; i <= 40; i++ {
+			for _, cr := range []bool{false, true} {
+				for fill := 0; fill < 4; fill++ {
+					line := make([]byte, i)
+					for j := range line {
+						switch fill {
+						case 0:
+							line[j] = 'A'
+						case 1:
+							line[j] = ' '
+						case 2:
+							line[j] = "GET / HTTP/1.1"[j%14]
+						default:
+							line[j] = byte(rng.Intn(256))
+							if line[j] == '\n' {
+								line[j] = 'x'
+							}
+						}
+					}
+					if cr && i > 0 {
+						line[i-1] = '\r'
+					}
+					for _, tail := range []string{"", "\r\n", "Host: a\r\n\r\n"} {
+						g := append(append(append([]byte{}, line...), '\n'), tail...)
+						v, _, _, emsg := vhEval(m, g)
+						evals++
+						if v == vhPanic {
+							out.Fail("C04:http:panic", "http matcher panicked on a short first line: "+emsg, map[string]any{"first_lf_at": i, "cr": cr, "hex": fmt.Sprintf("%x", g)})
+						}
+						if v == vhYes {
+							if _, perr := http.ReadRequest(bufio.NewReader(bytes.NewReader(g))); perr != nil {
+								out.Fail("C14:http:accepts-invalid", "matched a first line net/http rejects: "+perr.Error(), map[string]any{"hex": fmt.Sprintf("%x", g)})
+							}
+						}
+					}
+				}
+			}
+			out.Case("", "http1-shortline", i >= 8 && i <= 12, map[string]any{"first_lf_at": i})
 		}
 	}
 	// HTTP/2 prior-knowledge prefaces followed by frame sequences WITHOUT a usable HEADERS frame:
